@@ -236,7 +236,10 @@ theorem table_hyps (d : Bytes) (hd : d ≠ []) (v : V) (l : L) :
       | false => rfl
       | true => exact absurd (hp.eq_of_length (Nat.le_antisymm hp.length_le ((isPrefix_iff _ _).1 h).length_le)) hne
     have h2 : isPrefix p d = true := (isPrefix_iff _ _).2 hp
-    exact ⟨.eof, by simp [tableLoad, h1, h2], rfl⟩
+    refine ⟨.eof, ?_, rfl⟩
+    by_cases hpe : p = []
+    · subst hpe; simp [tableLoad, h1, h2]
+    · simp [tableLoad, h1, h2, hpe]
   · intros; rfl
 
 end NutilsVerif.C18
